@@ -104,7 +104,7 @@ def has_enum_key(w: World, t, seen=None, conv=None):
     return False
 
 
-def check_c16(v: Verdict, n_worlds: int):
+def check_c16(v: Verdict, n_worlds: int, flags=None):
     rng = random.Random(v.seed * 7919 + 1616)
     hist = {"formats": sorted(FORMATS), "not_present": ABSENT, "worlds": 0, "round_trips": {f: 0 for f in FORMATS}, "skipped_outside_limits": 0,
             "user_hook_checks": 0, "kinds": {}, "f19_hits": 0, "f28_hits": 0}
@@ -172,7 +172,7 @@ def check_c16(v: Verdict, n_worlds: int):
                         v.violation("loads(dumps(x, T), T) differs from x", {**desc, "dumped": repr(data)[:400], "loaded": repr(y)[:400]})
                         continue
                     if fname == "json":
-                        add_json_case(w, conv, t, x, cases, meta, desc)
+                        add_json_case(w, conv, t, x, cases, meta, desc, flags)
         user_hooks(v, rng, w, hist)
     quoted_annotations(v, hist)
     namedtuple_battery(v, rng, hist, max(12, 2 * n_worlds))
@@ -328,9 +328,23 @@ def user_hooks(v, rng, w: World, hist):
 
 # ------------------------------------------------------------------ JSON converter against the model
 
-def add_json_case(w: World, conv, t, x, cases, meta, desc):
+class JsonTables(L.Tables):
+    """oracle tables of the JSON converter's structure side: the bytes hook is its own (base85 decoder), the others the constructors"""
+
+    def __init__(self, w, conv):
+        super().__init__(w)
+        self.conv = conv
+
+    def construct(self, p, x):
+        if p == "bytes":
+            return self.conv.structure(x, bytes)
+        return L.PRIM_CLS[p](x)
+
+
+def add_json_case(w: World, conv, t, x, cases, meta, desc, flags=None):
     """plain unstructured form (a fresh Converter) -> model jsonify + json_rt must equal the real json converter's
-    unstructured form, and what json.loads(json.dumps(.)) makes of it"""
+    unstructured form, and what json.loads(json.dumps(.)) makes of it; and the model's structure side (Conv.structure with
+    the converter's own bytes hook as the bytes entry of the environment) applied to that must give x back, as the real loads did"""
     import json
     from cattrs import Converter
     try:
@@ -348,6 +362,17 @@ def add_json_case(w: World, conv, t, x, cases, meta, desc):
         return
     cases.append(text)
     meta.append({**desc, "plain_unstructured": repr(plain)[:300], "json_unstructured": repr(pre)[:300], "after_library_round_trip": repr(back)[:300]})
+    # the structure side, for types inside the nested universe of Conv.v
+    try:
+        ct = w.cty(t)
+        tables = JsonTables(w, conv)
+        tables.add_payload(back, L.prims_of(w, t, set(), set()), L.has_class(w, t))
+        dv = bool(getattr(conv, "detailed_validation", True))
+        text2 = f"jload_ok {tables.env_term()} {L.ccfg(True, dv, 'dict', False, flags or {})} {ct} {w.cval(back)} {w.cval(x)}"
+    except (Unencodable, TypeError, ValueError, RecursionError):
+        return
+    cases.append(text2)
+    meta.append({**desc, "model": "structure side", "after_library_round_trip": repr(back)[:300], "expected": repr(x)[:300]})
 
 
 def dict_keys(o, acc):
@@ -373,8 +398,9 @@ def run_json_model(v, cases, meta):
             v.obligation("correspondence:PRE/C16:coqc", False, out[-700:])
             return
         bad += [k + int(x) for x in re.findall(r"\d+", vals[-1])]
-    v.obligation("correspondence:PRE/C16 (json: model post-processing of the unstructured form and model of loads(dumps(.)) = implementation / library)", not bad,
+    v.obligation("correspondence:PRE/C16 (json: model post-processing of the unstructured form, model of the library round trip, and the model's structure side on it = implementation / library)", not bad,
                  "" if not bad else f"{len(bad)} of {len(cases)} disagree, first: {meta[bad[0]]}")
     v.coverage["json_model_cases"] = len(cases)
+    v.coverage["json_model_structure_side_cases"] = sum(1 for m in meta if m.get("model") == "structure side")
     if len(v.samples) < 4:
         v.samples += meta[:4]
